@@ -24,7 +24,7 @@ def setup():
         "minute": units.minute, "kg": units.kilogram, "gram": units.gram,
         "newton": units.newton, "hz": units.hertz, "joule": units.joule, "rad": units.radian,
         "kilo": sp.sympify(prefixes.kilo), "milli": sp.sympify(prefixes.milli),   # NB: 10**-3 is a float in the library
-        "pkilo": sp_prefixes.kilo,
+        "pkilo": sp_prefixes.kilo, "pkibi": sp_prefixes.kibi,    # Prefix objects: decimal (10**3) and binary (2**10)
         "q2m": Quantity(2 * units.meter), "q4m2": Quantity(4 * units.meter**2), "q0": Quantity(0),
         "qang": Quantity(2, dimension=angle_type),
         "sym": x, "deriv": sp.Derivative(f(x), x),
